@@ -33,7 +33,7 @@ var engineAssumptions = []string{
 var checks = []Check{
 	{
 		ID: "C20", Title: "connection and request statistics are conserved", Level: "model_checking",
-		LevelText:   "every history up to depth 4/5 of connects, disconnects, successful / unsupported / invalid / multi-key requests, MOVED and ASK redirections, node down/up, backend resets, connection-limit rejections, host removal, ending either with every client closed or with Stop while connections are open, on the real Redis and TCP processors with their real listeners; counters read through the stats objects as deltas at every quiescent point; the free-running race pass of the redis and TCP processors (unmodified code, -race); Stop racing arriving requests (P1 F1 / P2 F1); a client that goes away with its request in flight",
+		LevelText:   "every history up to depth 4/5 of connects, disconnects, successful / unsupported / invalid / multi-key requests, MOVED and ASK redirections, node down/up, backend resets, connection-limit rejections, host removal, ending either with every client closed or with Stop while connections are open, on the real Redis and TCP processors with their real listeners; counters read through the stats objects as deltas at every quiescent point; the free-running race pass of the redis and TCP processors (unmodified code, -race); Stop racing arriving requests (P1 F1 / P2 F1); a client that goes away with its request in flight; two relayed connections ending at once (plain statistic reads/writes are scheduling points, run-last policy); a pipeline cut off in the middle of a request",
 		Technique:   "exhaustive enumeration of traffic/fault histories on the real processors under a controlled scheduler",
 		Assumptions: append([]string{"counters are process-wide; each execution compares against a snapshot taken at its own start", "default schedule per operation"}, engineAssumptions...),
 		Jobs: []Job{
@@ -46,7 +46,7 @@ var checks = []Check{
 	},
 	{
 		ID: "C08", Title: "running services converge to the configured services and endpoints", Level: "model_checking",
-		LevelText:   "explicit-state BFS (canonical-state de-duplication over store table + running processors + host sets) over every history up to depth 5/6 of dependency add/remove, valid/invalid configuration updates and endpoint updates (every added/removed subset combination of two addresses, including an address in both lists and removals before additions) for two services, fed through the real configuration store into the real controller with recording processors; controller draining after every update or only at the end; with and without a bootstrap static service; plus all schedules within bounds of the updater racing the controller loop; histories include an address re-announced with the other endpoint type; a controller starting 32-34 order-sensitive events late; the real discovery client feeding the real store from a scripted discovery service; the free-running race pass of store + controller; removals that report the endpoint as DOWN",
+		LevelText:   "explicit-state BFS (canonical-state de-duplication over store table + running processors + host sets) over every history up to depth 5/6 of dependency add/remove, valid/invalid configuration updates and endpoint updates (every added/removed subset combination of two addresses, including an address in both lists and removals before additions) for two services, fed through the real configuration store into the real controller with recording processors; controller draining after every update or only at the end; with and without a bootstrap static service; plus all schedules within bounds of the updater racing the controller loop; histories include an address re-announced with the other endpoint type; a controller starting 32-34 order-sensitive events late; the real discovery client feeding the real store from a scripted discovery service; the free-running race pass of store + controller; removals that report the endpoint as DOWN; a few non-commuting events of two services queued while the controller is late",
 		Technique:   "explicit-state BFS over operation histories of the real store+controller under a controlled scheduler + preemption-bounded schedule exploration",
 		Assumptions: append([]string{"recording processors (each owns a real host.Set) stand in for the real TCP/Redis processors", "the store's handlers are driven through injected wrappers instead of a live gRPC stream"}, engineAssumptions...),
 		Jobs: []Job{
@@ -71,7 +71,7 @@ var checks = []Check{
 	},
 	{
 		ID: "C06", Title: "TCP: connections go only to current healthy hosts, per the balancing policy", Level: "model_checking",
-		LevelText:   "all schedules (P<=3/4, delays unbounded) of 2-3 threads picking n*k times from 1-3 hosts through the real round-robin balancer; every random outcome and every connection-count assignment for random and least-connection; every history up to depth 3/4 of add / remove (fresh host objects, as the controller builds them) / replace / health marks / connect / disconnect on the real TCP processor under the three policies with every random outcome; a connection arrival racing a membership or health change under all schedules within bounds; late health results for a stale host object, removals announced with the other type, replacement by fresh objects with the same addresses; a relayed connection to a usable member must stay open; arrival racing a replace whose list starts with a backup; a configuration update that keeps the policy (rotation must continue); a member announced again with the other type",
+		LevelText:   "all schedules (P<=3/4, delays unbounded) of 2-3 threads picking n*k times from 1-3 hosts through the real round-robin balancer; every random outcome and every connection-count assignment for random and least-connection; every history up to depth 3/4 of add / remove (fresh host objects, as the controller builds them) / replace / health marks / connect / disconnect on the real TCP processor under the three policies with every random outcome; a connection arrival racing a membership or health change under all schedules within bounds; late health results for a stale host object, removals announced with the other type, replacement by fresh objects with the same addresses; a relayed connection to a usable member must stay open; arrival racing a replace whose list starts with a backup; a configuration update that keeps the policy (rotation must continue); a member announced again with the other type; sequences of picks of one balancer from different lists; two services' balancers interleaved",
 		Technique:   "preemption-bounded schedule exploration + exhaustive history enumeration on the real TCP processor under a controlled scheduler",
 		Assumptions: engineAssumptions,
 		Jobs: []Job{
@@ -83,7 +83,7 @@ var checks = []Check{
 	},
 	{
 		ID: "C05", Title: "TCP: bytes relayed unmodified, in order, both ways, with half-close", Level: "model_checking",
-		LevelText:   "stateless exploration of all schedules within bounds of the real HandleConn/pipeConn relay on a virtual network: stream lengths around the 16 KiB copy buffer in both directions, three writer chunkings, four finishing orders (client half-closes first, backend first, both, client full close), copy buffer shrunk to 8 bytes, two connections sharing the buffer pool; read sizes as environment deviations in the thorough tier; SO_LINGER(0) modelled; free-running race pass of the TCP processor on the unmodified code; through the real listener with bounded socket buffers (back-pressure, TCP_USER_TIMEOUT modelled): streams longer than the buffers towards a receiver that starts reading up to 9 minutes late",
+		LevelText:   "stateless exploration of all schedules within bounds of the real HandleConn/pipeConn relay on a virtual network: stream lengths around the 16 KiB copy buffer in both directions, three writer chunkings, four finishing orders (client half-closes first, backend first, both, client full close), copy buffer shrunk to 8 bytes, two connections sharing the buffer pool; read sizes as environment deviations in the thorough tier; SO_LINGER(0) modelled; free-running race pass of the TCP processor on the unmodified code; through the real listener with bounded socket buffers (back-pressure, TCP_USER_TIMEOUT modelled): streams longer than the buffers towards a receiver that starts reading up to 9 minutes late; idle timeout 0; 2-3 clients arriving together",
 		Technique:   "preemption/delay-bounded stateless schedule exploration of the real relay goroutines with input enumeration",
 		Assumptions: append([]string{"vnet models orderly close, half-close, reset, linger 0, and - where a scenario bounds the socket buffers - back-pressure and TCP_USER_TIMEOUT; other kernel behaviours (RST on close with unread data, partial writes, keep-alive) are outside the model"}, engineAssumptions...),
 		Jobs: []Job{
@@ -94,7 +94,7 @@ var checks = []Check{
 	},
 	{
 		ID: "C09", Title: "listeners: stop and drain always complete and release what they hold", Level: "model_checking",
-		LevelText:   "stateless exploration of all schedules within bounds of the real listener on a virtual network: Serve with a bind that fails 0/1/always times, a Stop / Drain / Drain+Stop caller at every point of the listener's life, 0-2 clients, connection limit 0/1; plus arrival patterns against a limit; plus stop of the real Redis and TCP processors with idle, in-flight, silent and closed backends; redis Stop while the first backend connect is still in progress or while an endpoint is removed during the hot-key collection round; tcp Stop while still connecting; controller Stop/Drain racing updates; the health monitor with its real redis / advanced-TCP / MySQL checkers against answering, wrong, late, silent, closing and refusing backends, 1-3 rounds, then Stop; a monitor with more hosts than its check concurrency",
+		LevelText:   "stateless exploration of all schedules within bounds of the real listener on a virtual network: Serve with a bind that fails 0/1/always times, a Stop / Drain / Drain+Stop caller at every point of the listener's life, 0-2 clients, connection limit 0/1; plus arrival patterns against a limit; plus stop of the real Redis and TCP processors with idle, in-flight, silent and closed backends; redis Stop while the first backend connect is still in progress or while an endpoint is removed during the hot-key collection round; tcp Stop while still connecting; controller Stop/Drain racing updates; the health monitor with its real redis / advanced-TCP / MySQL checkers against answering, wrong, late, silent, closing and refusing backends, 1-3 rounds, then Stop; a monitor with more hosts than its check concurrency; Stop in the middle of a health-check round; a TCP service whose health-check kind changes at run time; endpoint notices while a request waits for a connection or is being redirected",
 		Technique:   "preemption/delay-bounded stateless schedule exploration of the real goroutines under a controlled scheduler with virtual time and network",
 		Assumptions: engineAssumptions,
 		Jobs: []Job{
@@ -112,7 +112,7 @@ var checks = []Check{
 	},
 	{
 		ID: "C11", Title: "no byte sequence from a client or a backend can crash or wedge the proxy", Level: "exploration",
-		LevelText:   "bounded-exhaustive input enumeration through the real parsers and handlers: every byte string over a 12-symbol RESP alphabet up to length 6/7 through decoder + dispatch, every supported command x argument shapes, every length-field boundary x truncation, nesting depths up to 8e6 and nested maximum-length arrays in isolated child processes (fatal errors and memory are observed from outside), every MOVED/ASK/CLUSTERDOWN text shape through the full stack, every CLUSTER NODES text of <= 2 lines from field alphabets under both map orders, every SCAN reply shape, and each crash family end to end with a second well-behaved connection; runs of up to 4e6 repetitions of short units under a 64 MiB stack limit; boundary slot fields through the real refresh of a started proxy; every prefix of the compression header as a backend value; keys made of braces and NUL in single-key, multi-key and script commands",
+		LevelText:   "bounded-exhaustive input enumeration through the real parsers and handlers: every byte string over a 12-symbol RESP alphabet up to length 6/7 through decoder + dispatch, every supported command x argument shapes, every length-field boundary x truncation, nesting depths up to 8e6 and nested maximum-length arrays in isolated child processes (fatal errors and memory are observed from outside), every MOVED/ASK/CLUSTERDOWN text shape through the full stack, every CLUSTER NODES text of <= 2 lines from field alphabets under both map orders, every SCAN reply shape, and each crash family end to end with a second well-behaved connection; runs of up to 4e6 repetitions of short units under a 64 MiB stack limit; boundary slot fields through the real refresh of a started proxy; every prefix of the compression header as a backend value; keys made of braces and NUL in single-key, multi-key and script commands; every supported command with 15 argument shapes through the whole stack, compression off and on; a backend that sends a malformed reply under every schedule of the client's goroutines",
 		Technique:   "bounded-exhaustive input enumeration on the real code (process-isolated for fatal inputs) + schedule exploration of the end-to-end cases",
 		Rule:        "distinct inputs (byte strings, structured requests, backend reply texts/shapes), each evaluated once per enumerated environment (map order)",
 		Assumptions: append([]string{"memory is measured as runtime.MemStats.Sys inside the isolated child", "alphabet chosen from the RESP type bytes, digits, CR, LF, a letter and space"}, engineAssumptions...),
@@ -126,7 +126,7 @@ var checks = []Check{
 	},
 	{
 		ID: "C04", Title: "slot migration and failover are invisible to clients", Level: "model_checking",
-		LevelText:   "every history up to depth 4/5 (plus full migration scripts) over set-migrating / migrate key / finalise / failover (old master up or down) / refresh round interleaved with GET SET INCR DEL MGET on the moving and a stable slot group, on the real proxy stack against the mini cluster (ASK for absent keys of a migrating slot, ASKING consumed by the next command, MOVED from non-owners and replicas); plus all schedules within bounds of an ASK-redirected INCR racing with other traffic on the target node's connection; migration to a fresh master that owns no slots; an outage of the slot owner with a command meanwhile; failover + host-removal notice while a refresh answered from the old topology is in flight; redirected writes with transparent compression on (C13/histories); failover announced by a host-removal notice",
+		LevelText:   "every history up to depth 4/5 (plus full migration scripts) over set-migrating / migrate key / finalise / failover (old master up or down) / refresh round interleaved with GET SET INCR DEL MGET on the moving and a stable slot group, on the real proxy stack against the mini cluster (ASK for absent keys of a migrating slot, ASKING consumed by the next command, MOVED from non-owners and replicas); plus all schedules within bounds of an ASK-redirected INCR racing with other traffic on the target node's connection; migration to a fresh master that owns no slots; an outage of the slot owner with a command meanwhile; failover + host-removal notice while a refresh answered from the old topology is in flight; redirected writes with transparent compression on (C13/histories); failover announced by a host-removal notice; pipelines of non-commuting commands one of which the node refuses with -CLUSTERDOWN; host removal / replacement / stop racing a redirected request; a redirection target that cannot serve",
 		Technique:   "exhaustive enumeration of migration/failover histories + preemption/delay-bounded schedule exploration on the real proxy stack",
 		Assumptions: append([]string{"mini Redis Cluster redirection rules written from redis-server 5.0 getNodeByQuery; ownership changes are atomic cluster-wide (no gossip lag); replicas share their master's data", "errors are tolerated after a failover whose old master is down until the next periodic refresh round completed (the proxy cannot know earlier; deliberately weaker than the statement)"}, engineAssumptions...),
 		Jobs: []Job{
@@ -143,20 +143,21 @@ var checks = []Check{
 	},
 	{
 		ID: "C07", Title: "the proxy heals after connection loss and topology change", Level: "model_checking",
-		LevelText:   "every history up to depth 5/6 (plus selected deeper convergence histories) over connection resets, node down/up, slot-group moves (including the last group of a master) and refresh rounds on the real proxy stack; requests issued at quiescence and compared with a single-server reference; redirections must stop within two refresh rounds after the first redirection; the same histories one level less deep with nodes known by host name (connection address differs from the backend's key); schedule exploration of simultaneous connection losses and of a layout change + redirection while a refresh answered from the old layout is in flight; a request redirected while the upstream is stopped / its hosts replaced; a restarting node (next connect accepted-and-reset, refused or slow) with requests meanwhile, P2 F2 inside that window",
+		LevelText:   "every history up to depth 5/6 (plus selected deeper convergence histories) over connection resets, node down/up, slot-group moves (including the last group of a master) and refresh rounds on the real proxy stack; requests issued at quiescence and compared with a single-server reference; redirections must stop within two refresh rounds after the first redirection; the same histories one level less deep with nodes known by host name (connection address differs from the backend's key); schedule exploration of simultaneous connection losses and of a layout change + redirection while a refresh answered from the old layout is in flight; a request redirected while the upstream is stopped / its hosts replaced; a restarting node (next connect accepted-and-reset, refused or slow) with requests meanwhile, P2 F2 inside that window; the proxy starting before its cluster (seeds refusing or not answering connects); a replica changing its master",
 		Technique:   "exhaustive enumeration of fault/topology histories on the real proxy stack under a controlled scheduler with virtual time",
 		Assumptions: append([]string{"mini Redis Cluster (ownership changes are atomic cluster-wide; a restarted node keeps its data)", "default schedule per operation; the random seed-host choice rotates fairly"}, engineAssumptions...),
 		Jobs: []Job{
 			{Pkg: "proc/redis", Scenarios: []string{"C07/histories"}, Shards: 16, QuickS: 90, ThoroughS: 240},
 			{Pkg: "proc/redis", Scenarios: []string{"C02/upstream-redirect"}, Shards: 16, QuickS: 150, ThoroughS: 240},
 			{Pkg: "proc/redis", Scenarios: []string{"C02/stack-race"}, Race: true, Shards: 1, QuickS: 120, ThoroughS: 240},
+			{Pkg: "proc/redis", Scenarios: []string{"C14/topology"}, Shards: 4, QuickS: 60, ThoroughS: 120}, // after a replica changed its master (or a partial-view refresh) requests go where the cluster says
 			{Pkg: "proc/redis", Scenarios: []string{"C07/concurrent-loss", "C07/connect-lost", "C07/cold-start"}, Shards: 16, QuickS: 90, ThoroughS: 240},
 			{Pkg: "proc/redis", Scenarios: []string{"C07/refresh-in-flight"}, Shards: 16, QuickS: 60, ThoroughS: 240},
 		},
 	},
 	{
 		ID: "C01", Title: "replies come back in request order, exactly one per request", Level: "model_checking",
-		LevelText:   "stateless exploration on the real proxy stack: every pipeline of length <= 2/3 over a 10-request alphabet x every cut of its bytes into two writes (default schedule); every pipeline of length <= 2 (+ selected of length 3) under all schedules within preemption/delay/select bounds; two concurrent connections; a narrow driver of one backend client with three senders deciding per-backend FIFO pairing; a 40-request pipeline exceeding the 32-entry session queue; every unsupported command name over {CR, LF, x} up to length 5 inside a pipeline; oracle: the received bytes parse with an independent codec into exactly one reply per request, reply k being the single-server answer to request k; the first pipeline after start; the backend-client driver of C02 (a request lost with its backend connection is a missing reply); free-running race pass of the whole redis stack; one node answering some milliseconds after the other (all schedules of that moment); every reply shape in the long pipeline",
+		LevelText:   "stateless exploration on the real proxy stack: every pipeline of length <= 2/3 over a 10-request alphabet x every cut of its bytes into two writes (default schedule); every pipeline of length <= 2 (+ selected of length 3) under all schedules within preemption/delay/select bounds; two concurrent connections; a narrow driver of one backend client with three senders deciding per-backend FIFO pairing; a 40-request pipeline exceeding the 32-entry session queue; every unsupported command name over {CR, LF, x} up to length 5 inside a pipeline; oracle: the received bytes parse with an independent codec into exactly one reply per request, reply k being the single-server answer to request k; the first pipeline after start; the backend-client driver of C02 (a request lost with its backend connection is a missing reply); free-running race pass of the whole redis stack; one node answering some milliseconds after the other (all schedules of that moment); every reply shape in the long pipeline; the first request of the pipeline MOVED/ASK-redirected to the late node; a node that hangs for longer than the idle timeout",
 		Technique:   "preemption/delay-bounded stateless schedule exploration + exhaustive input/fragmentation enumeration on the real proxy stack",
 		Assumptions: engineAssumptions,
 		Jobs: []Job{
@@ -170,7 +171,7 @@ var checks = []Check{
 	},
 	{
 		ID: "C02", Title: "every request is answered exactly once, even when backends fail", Level: "model_checking",
-		LevelText:   "stateless exploration of all schedules within preemption/delay/select bounds of the real goroutines: (1) one backend client with 2 senders, optional Stop and five backend behaviours, (2) the real upstream with two nodes and a concurrent host removal / replacement / stop / node reset / node down, (3) the full proxy stack with a pipeline of two and a backend connection reset before any node-side read or write; oracle at quiescence: every request completed exactly once (double completion panics), no caller parked for ever; host removal/replacement/stop while the first request is being MOVED-redirected; Stop while the first backend connect is in progress; compression-filter rejections inside pipelines with backend faults; free-running race pass of the whole redis stack; a request redirected to a target that refuses, resets after accepting or loses its connection; a backend that never reads (bounded buffers) and then half-closes",
+		LevelText:   "stateless exploration of all schedules within preemption/delay/select bounds of the real goroutines: (1) one backend client with 2 senders, optional Stop and five backend behaviours, (2) the real upstream with two nodes and a concurrent host removal / replacement / stop / node reset / node down, (3) the full proxy stack with a pipeline of two and a backend connection reset before any node-side read or write; oracle at quiescence: every request completed exactly once (double completion panics), no caller parked for ever; host removal/replacement/stop while the first request is being MOVED-redirected; Stop while the first backend connect is in progress; compression-filter rejections inside pipelines with backend faults; free-running race pass of the whole redis stack; a request redirected to a target that refuses, resets after accepting or loses its connection; a backend that never reads (bounded buffers) and then half-closes; a backend that answers once and then sends a malformed reply; a backend client stopped while the hot-key collection runs",
 		Technique:   "preemption/delay-bounded stateless schedule exploration of the real goroutines under a controlled scheduler with fault injection at every network operation",
 		Assumptions: engineAssumptions,
 		Jobs: []Job{
@@ -188,7 +189,7 @@ var checks = []Check{
 	},
 	{
 		ID: "C13", Title: "transparent compression never changes what clients read back", Level: "model_checking",
-		LevelText:   "bounded-exhaustive enumeration through the real filter chain (4 thresholds x 8 write commands x every {0,x}-string up to length 10 plus patterned values around every threshold x 1-3 filter passes) with the snappy library itself as decompression oracle, and every history up to depth 4/5 of enable/disable, writes, reads, MOVED and ASK redirection on the real proxy stack against a reference map; a compression-settings switch racing a write and its read back (access points on the unsynchronised configuration pointer); removing the compression section; GETSET read-back; multi-value writes; saving sweep through the framing overhead; connections lost between enable/disable/remove and the read; every history enable, write, two events, read",
+		LevelText:   "bounded-exhaustive enumeration through the real filter chain (4 thresholds x 8 write commands x every {0,x}-string up to length 10 plus patterned values around every threshold x 1-3 filter passes) with the snappy library itself as decompression oracle, and every history up to depth 4/5 of enable/disable, writes, reads, MOVED and ASK redirection on the real proxy stack against a reference map; a compression-settings switch racing a write and its read back (access points on the unsynchronised configuration pointer); removing the compression section; GETSET read-back; multi-value writes; saving sweep through the framing overhead; connections lost between enable/disable/remove and the read; every history enable, write, two events, read; values around the 64 KiB block size of the compression stream",
 		Technique:   "bounded-exhaustive input enumeration + exhaustive history enumeration on the real proxy stack under a controlled scheduler",
 		Assumptions: append([]string{"github.com/golang/snappy called directly as independent decompression oracle", "mini Redis Cluster stores values byte for byte"}, engineAssumptions...),
 		Jobs: []Job{
@@ -202,7 +203,7 @@ var checks = []Check{
 	},
 	{
 		ID: "C18", Title: "SCAN through the proxy visits every node once and terminates", Level: "model_checking",
-		LevelText:   "every combination of scripted per-node cursor chains (17 shapes per node, 1-3 nodes, cursors up to 2^48-1) iterated from cursor 0 through the real proxy; MATCH/COUNT/TYPE pass-through; every client-supplied cursor class; lossless cursor composition for all power-of-two boundaries; 0 nodes; a slot refresh between any two calls; one two-node iteration under all schedules within bounds (with scheduling points after releasing operations); iterations of 140/300 calls per node with nearly all batches empty",
+		LevelText:   "every combination of scripted per-node cursor chains (17 shapes per node, 1-3 nodes, cursors up to 2^48-1) iterated from cursor 0 through the real proxy; MATCH/COUNT/TYPE pass-through; every client-supplied cursor class; lossless cursor composition for all power-of-two boundaries; 0 nodes; a slot refresh between any two calls; one two-node iteration under all schedules within bounds (with scheduling points after releasing operations); iterations of 140/300 calls per node with nearly all batches empty; a call answered -CLUSTERDOWN and repeated; a replica in the host list",
 		Technique:   "exhaustive enumeration of node cursor histories on the real proxy stack under a controlled scheduler",
 		Assumptions: append([]string{"scripted SCAN answers of the mini cluster (well-formed replies; malformed ones belong to C11)"}, engineAssumptions...),
 		Jobs: []Job{{Pkg: "proc/redis", Scenarios: []string{"C18/scan"}, Shards: 16, QuickS: 90, ThoroughS: 240},
@@ -211,7 +212,7 @@ var checks = []Check{
 	},
 	{
 		ID: "C14", Title: "only supported commands reach backends; writes only reach masters", Level: "exploration",
-		LevelText:   "exhaustive enumeration of the command-name space through the real proxy on a 2-master x 2-replica mini cluster: the full Redis 5.0 command table (with Redis's own write flags), every name in the proxy's tables and odd names, in three letter cases, with 0-4 arguments, under the three read strategies, with the virtual clock stepped so that the time-based replica choice visits every candidate; node logs compared before/after each command at quiescence; run-time read-strategy changes (histories <= 4/5); keys with an empty hash tag; every pipeline of 2/3 out of 7 commands (read, write, unsupported, local) as RESP, inline or alternating, also one write per command while requests wait for a backend connection; CLUSTERDOWN answers; first keys at the command table's position",
+		LevelText:   "exhaustive enumeration of the command-name space through the real proxy on a 2-master x 2-replica mini cluster: the full Redis 5.0 command table (with Redis's own write flags), every name in the proxy's tables and odd names, in three letter cases, with 0-4 arguments, under the three read strategies, with the virtual clock stepped so that the time-based replica choice visits every candidate; node logs compared before/after each command at quiescence; run-time read-strategy changes (histories <= 4/5); keys with an empty hash tag; every pipeline of 2/3 out of 7 commands (read, write, unsupported, local) as RESP, inline or alternating, also one write per command while requests wait for a backend connection; CLUSTERDOWN answers; first keys at the command table's position; key-less EVAL never at a replica (random picks rotate over all hosts); a refresh answered from a partial view",
 		Technique:   "bounded-exhaustive enumeration of the command space on the real proxy stack under a controlled scheduler",
 		Rule:        "distinct = (name, letter case, argument count, strategy, clock step) combinations issued",
 		Assumptions: append([]string{"Redis 5.0 command table with write flags embedded in the harness (written from the redis-server 5.0 command table)", "mini Redis Cluster node logs"}, engineAssumptions...),
@@ -225,7 +226,7 @@ var checks = []Check{
 	},
 	{
 		ID: "C03", Title: "on a stable cluster the proxy behaves like a single Redis server", Level: "model_checking",
-		LevelText:   "explicit-state BFS over command programs (depth 3-4 quick, 4-5 thorough; ~40 commands covering every handler over 4 colliding keys; 1 or 2 connections; 5 layouts of 3 slot groups on 1-3 nodes) through the real proxy (sessions, upstream, backend clients) on a virtual network against a mini Redis Cluster; each reply compared with a single-server reference, first delivery checked against slot ownership, zero redirections, final keyspaces equal; plus a sweep of binary/boundary-length keys and values through 7 write/read families; requests issued at every unsynchronised slot-table access of a running periodic refresh; the first pipeline after start; 13 reply shapes repeated past the decoder's nesting limit on long-lived connections, with compression off and on",
+		LevelText:   "explicit-state BFS over command programs (depth 3-4 quick, 4-5 thorough; ~40 commands covering every handler over 4 colliding keys; 1 or 2 connections; 5 layouts of 3 slot groups on 1-3 nodes) through the real proxy (sessions, upstream, backend clients) on a virtual network against a mini Redis Cluster; each reply compared with a single-server reference, first delivery checked against slot ownership, zero redirections, final keyspaces equal; plus a sweep of binary/boundary-length keys and values through 7 write/read families; requests issued at every unsynchronised slot-table access of a running periodic refresh; the first pipeline after start; 13 reply shapes repeated past the decoder's nesting limit on long-lived connections, with compression off and on; requests arriving in pieces cut between CR and LF; MSET naming a key twice at every pair of positions; masters listed as suspected / nofailover / on a new address (C12/reported-table)",
 		Technique:   "explicit-state BFS over operation histories of the real proxy stack under a controlled scheduler (default schedule), reference-model comparison in every state",
 		Assumptions: append([]string{"mini Redis Cluster + single-server reference interpreter (/verif/sim/cluster) written from the Redis 5.0 documentation; the same interpreter is used on both sides so the comparison checks routing, splitting and relaying", "default schedule only (the quantifier of C03 is programs x inputs x layouts)"}, engineAssumptions...),
 		Jobs: []Job{
@@ -240,7 +241,7 @@ var checks = []Check{
 	},
 	{
 		ID: "C17", Title: "hot restart hand-over ordered, acknowledged, robust to bad frames", Level: "fault_enumeration",
-		LevelText:   "bounded-exhaustive enumeration over real unix sockets: every frame (12 types x payload 0..4100 x 13 declared lengths) through the real reader, full round trips through the real sender, every request sequence up to length 4/5 through the real Restarter with a scripted instance, and a first child dropped at every point (after k requests, mid-header, after a malformed frame) followed by a second child; every type byte 0-255 that is not a request; a child gone before its reply can be written; hand-over steps that take 1.3 s / 3.5 s",
+		LevelText:   "bounded-exhaustive enumeration over real unix sockets: every frame (12 types x payload 0..4100 x 13 declared lengths) through the real reader, full round trips through the real sender, every request sequence up to length 4/5 through the real Restarter with a scripted instance, and a first child dropped at every point (after k requests, mid-header, after a malformed frame) followed by a second child; every type byte 0-255 that is not a request; a child gone before its reply can be written; hand-over steps that take 1.3 s / 3.5 s; a child that sends its next request while the step before is still running; a received frame keeps its content while the next is read",
 		Technique:   "bounded-exhaustive frame enumeration + fault-point enumeration over request histories on the real Restarter",
 		Rule:        "each evaluation is a distinct frame or a distinct (request sequence, drop point) history",
 		Assumptions: []string{"Go compiler and runtime", "kernel unix stream sockets (abstract namespace)", "the protocol is request/reply, so outcomes do not depend on goroutine timing; a 30 s read deadline only detects a hung hand-over"},
@@ -251,7 +252,7 @@ var checks = []Check{
 	},
 	{
 		ID: "C19", Title: "hot keys: counters exact for tracked keys and bounded", Level: "model_checking",
-		LevelText:   "explicit-state BFS over every Incr/Latch/Free sequence on the real Counter (capacity 0..3, depth 7/9) against a reference map plus structural invariants of the frequency list; DFS over every Collector history (depth 5/6) including every rand outcome of the logarithmic counter and a minute tick at any clock read; every insert sequence into the sorted report; every interleaving (P<=2/3) of writers, collect, reader and Free; capacities at the uint8 boundaries; three key-name shapes; a report that a reader is still walking stays duplicate free; evictStale on every report state of 1-4/5 keys with heats 1-7 stamped in the previous or current minute; two writers sharing one counter",
+		LevelText:   "explicit-state BFS over every Incr/Latch/Free sequence on the real Counter (capacity 0..3, depth 7/9) against a reference map plus structural invariants of the frequency list; DFS over every Collector history (depth 5/6) including every rand outcome of the logarithmic counter and a minute tick at any clock read; every insert sequence into the sorted report; every interleaving (P<=2/3) of writers, collect, reader and Free; capacities at the uint8 boundaries; three key-name shapes; a report that a reader is still walking stays duplicate free; evictStale on every report state of 1-4/5 keys with heats 1-7 stamped in the previous or current minute; two writers sharing one counter; HOTKEY in a pipeline with compression on (P1 F1 / P2 F1); a counter still used after the other client of its backend freed it",
 		Technique:   "explicit-state search over operation histories on the real objects + preemption-bounded schedule exploration",
 		Assumptions: engineAssumptions,
 		Jobs: []Job{
@@ -266,7 +267,7 @@ var checks = []Check{
 	},
 	{
 		ID: "C10", Title: "RESP codec: decode and encode are inverse and independent of chunking", Level: "exploration",
-		LevelText:   "bounded-exhaustive enumeration: every value of the RESP grammar up to depth 2 over boundary texts/integers, every concatenation of small messages under all chunkings (<= 14 bytes) or every placement of <= 2/3 cuts, six reader buffer sizes, against an independent codec; integer fast paths against strconv on every string over a 7-letter alphabet up to length 7/8 and every i in [-70000,70000]; 300 repetitions of one null/empty/nested message followed by other values through one decoder; digit strings around every length threshold and the int64/uint64 limits",
+		LevelText:   "bounded-exhaustive enumeration: every value of the RESP grammar up to depth 2 over boundary texts/integers, every concatenation of small messages under all chunkings (<= 14 bytes) or every placement of <= 2/3 cuts, six reader buffer sizes, against an independent codec; integer fast paths against strconv on every string over a 7-letter alphabet up to length 7/8 and every i in [-70000,70000]; 300 repetitions of one null/empty/nested message followed by other values through one decoder; digit strings around every length threshold and the int64/uint64 limits; inline words with tabs, control characters and Unicode spaces",
 		Technique:   "bounded-exhaustive input and chunking enumeration against an independent reference codec",
 		Assumptions: []string{"Go compiler and runtime", "independent RESP codec /verif/sim/resp and strconv as references", "boundary sets chosen from the thresholds in the code (32, 512, 4096, 8192, 32768, 10 digits)"},
 		Jobs: []Job{{Pkg: "proc/redis", Scenarios: []string{"C10/codec"}, Shards: 16, QuickS: 120, ThoroughS: 240},
@@ -274,7 +275,7 @@ var checks = []Check{
 	},
 	{
 		ID: "C12", Title: "key-to-slot mapping equals the Redis Cluster specification", Level: "exploration",
-		LevelText:   "bounded-exhaustive input enumeration through the real routing function: all keys of length 0-3 (every CRC state x every next byte: the induction step for all lengths), two free positions in keys up to 64 bytes, every brace placement over a 4-letter alphabet up to length 9/11, against a bit-by-bit CRC16/XMODEM and the specification's hash-tag rule; slots moved one at a time with redirected GET/SET/EVAL/MGET (a redirection teaches the proxy only about the redirected key's slot); every forwarded command of the command table arrives at the owner of its first key",
+		LevelText:   "bounded-exhaustive input enumeration through the real routing function: all keys of length 0-3 (every CRC state x every next byte: the induction step for all lengths), two free positions in keys up to 64 bytes, every brace placement over a 4-letter alphabet up to length 9/11, against a bit-by-bit CRC16/XMODEM and the specification's hash-tag rule; slots moved one at a time with redirected GET/SET/EVAL/MGET (a redirection teaches the proxy only about the redirected key's slot); every forwarded command of the command table arrives at the owner of its first key; RESP/inline pipelines whose queued requests must keep their keys (C14/pipelines)",
 		Technique:   "bounded-exhaustive input enumeration (complete by induction over the CRC state)",
 		Rule:        "each evaluation is a distinct key; all are counted (the 2^24 three-byte keys cover every CRC state x next byte)",
 		Assumptions: []string{"Go compiler and runtime", "reference CRC16/XMODEM and hash-tag rule written from the Redis Cluster specification", "slot read through upstream.chooseHost over an identity slot table"},
@@ -288,7 +289,7 @@ var checks = []Check{
 	},
 	{
 		ID: "C15", Title: "host set and health checking keep a consistent usable view", Level: "model_checking",
-		LevelText:   "explicit-state BFS over every operation sequence on the real host.Set up to depth 5/7 against a reference model in every state; every interleaving (preemption bound 2/3) of 2-3 threads of set operations plus a reader; every check-outcome sequence for all thresholds 0..3 through the real monitor step; batches carrying one address twice; for single batch calls a concurrent reader sees only views that exist before or after the call; hysteresis inside a running TCP service with refused client dials between the checks",
+		LevelText:   "explicit-state BFS over every operation sequence on the real host.Set up to depth 5/7 against a reference model in every state; every interleaving (preemption bound 2/3) of 2-3 threads of set operations plus a reader; every check-outcome sequence for all thresholds 0..3 through the real monitor step; batches carrying one address twice; for single batch calls a concurrent reader sees only views that exist before or after the call; hysteresis inside a running TCP service with refused client dials between the checks; the same address removed and re-added with another type in one update, through the controller (C08/histories)",
 		Technique:   "explicit-state BFS over operation histories + preemption-bounded schedule exploration of real goroutines",
 		Rule:        "states = canonical dumps of the real host.Set (three maps, cache, per-object flag/latch) reached by operation sequences; every state non-trivial (differs from all others); schedules = distinct choice sequences",
 		Assumptions: engineAssumptions,
